@@ -42,6 +42,11 @@ def run(ctx):
     rep.guarded("write_all-loop", H + "write_all", lambda: rule_write_all(facts, rep))
     rep.guarded("consumed-count", H + "write", lambda: rule_consumed(facts, rep))
     rep.guarded("errors", H, lambda: rule_errors(facts, rep))
+    # the colours handed to the console are those of the extracted runs: the extractor's SGR rules are part of this property's
+    # chain (same rules as C07, evaluated here as well)
+    from rules import C07
+    rep.guarded("codes", C07.FN + "csi_dispatch", lambda: C07.rule_codes(facts, rep))
+    rep.guarded("substate", C07.FN + "csi_dispatch", lambda: C07.rule_substate(facts, rep))
     for r, n in (("cap-table", 3), ("wiring", 10), ("write_all-loop", 5), ("consumed-count", 1), ("errors", 3), ("W4", 5)):
         rep.floor(r, n)
 
